@@ -192,3 +192,14 @@ def fn_never_fails(facts, fid):
         if n["k"] in ("Ret",) and False:
             return False
     return True
+
+
+def incrate_callees(facts, fid):
+    """in-crate functions called (directly) by fid or its closures"""
+    out = []
+    for (bid, body) in bodies_of(facts, fid):
+        for i, t in mirq.calls(body):
+            c = t.get("callee") or ""
+            if c in facts.fns and c != fid and "{closure" not in c and c not in out:
+                out.append(c)
+    return out
